@@ -9,7 +9,9 @@ package dsim
 
 import (
 	"fmt"
+	"os"
 	"path"
+	"path/filepath"
 	"strings"
 	"testing"
 )
@@ -158,6 +160,20 @@ func genC06(r *Rng, tier string, idx int) *Plan {
 			} else if p.Profile == "race" {
 				p.Ops = append(p.Ops, Op{C: c, Args: g.Cmd(r)})
 			}
+		case x < 96 && p.Profile == "acl":
+			// the user table is written to the configuration file, users are switched off or on, and the file is
+			// loaded back in REPLACE mode: the rules of the file govern every session, old and new
+			u := fmt.Sprintf("u%d", r.Intn(next))
+			if r.Bool() {
+				p.Ops = append(p.Ops, Op{Kind: "toggle", Args: []string{"ACL", "SETUSER", u, Pick(r, []string{"off", "on"})}})
+			}
+			p.Ops = append(p.Ops, Op{Kind: "aclsave"})
+			p.Ops = append(p.Ops, Op{Kind: "toggle", Args: []string{"ACL", "SETUSER", u, Pick(r, []string{"off", "on"})}})
+			if r.Chance(0.3) {
+				p.Ops = append(p.Ops, Op{Kind: "auth", C: c, Args: []string{"AUTH", u, "pw" + u[1:]}})
+			}
+			p.Ops = append(p.Ops, Op{Kind: "aclload"})
+			p.Ops = append(p.Ops, Op{C: c, Args: g.Cmd(r)})
 		default:
 			p.Ops = append(p.Ops, Op{Kind: "auth", C: c, Args: []string{"AUTH", fmt.Sprintf("u%d", r.Intn(next)), fmt.Sprintf("pw%d", r.Intn(next))}})
 		}
@@ -351,6 +367,9 @@ func runC06(t *testing.T, p *Plan) *Outcome {
 		}
 	}
 	allowed, denied := 0, 0
+	root := filepath.Join(scratchDir(), fmt.Sprintf("r%d", runCounter.Add(1)))
+	_ = os.MkdirAll(root, 0o755)
+	defer os.RemoveAll(root)
 	br := RunBubble(t, func() {
 		s := NewSim()
 		s.install()
@@ -362,6 +381,8 @@ func runC06(t *testing.T, p *Plan) *Outcome {
 		cfg := BaseConfig
 		cfg.RequirePass = true
 		cfg.Password = "adminpw"
+		cfg.AclConfig = filepath.Join(root, "acl.json")
+		var saved map[string]*c06User
 		inst, err := s.Boot(1, cfg)
 		if err != nil {
 			fail("boot-failed", fmt.Sprint(err))
@@ -559,6 +580,28 @@ func runC06(t *testing.T, p *Plan) *Outcome {
 				continue
 			}
 			switch op.Kind {
+			case "aclsave":
+				if r := admin.DoSync("ACL", "SAVE"); r.IsError() || r.Panic != "" {
+					fail("save-failed", r.String()+" "+r.Reply.Str)
+					break
+				}
+				saved = map[string]*c06User{}
+				for k, u := range users {
+					cp := *u
+					saved[k] = &cp
+				}
+			case "aclload":
+				if saved == nil {
+					continue
+				}
+				if r := admin.DoSync("ACL", "LOAD", "REPLACE"); r.IsError() || r.Panic != "" {
+					fail("load-failed", r.String()+" "+r.Reply.Str)
+					break
+				}
+				for k, u := range saved {
+					cp := *u
+					users[k] = &cp
+				}
 			case "toggle":
 				if len(op.Args) < 4 {
 					continue
